@@ -17,6 +17,33 @@ import (
 
 func TestMain(m *testing.M) { hx.Main(m, "C11") }
 
+// The regression tier (confirmed findings, /verif/regress/C11) runs first.
+func TestReplay(t *testing.T) {
+	e, err := hx.LoadReplay()
+	if e == nil {
+		t.Skip("no replay file", err)
+	}
+	replayEnv(t, e)
+}
+
+func replayEnv(t *testing.T, e *hx.Envelope) {
+	var c Case
+	if err := json.Unmarshal(e.Case, &c); err != nil {
+		t.Fatalf("bad case: %v", err)
+	}
+	if err := execute(e.Test, &c); err != nil {
+		hx.Violation(e.Test, &c, err.Error())
+		t.Fatalf("%v", err)
+	}
+}
+
+func TestRegress(t *testing.T) {
+	for _, e := range hx.Regressions() {
+		replayEnv(t, e)
+		hx.Label("regress")
+	}
+}
+
 // Finding ids (listed in /verif/known_findings.json while they are open).
 const (
 	// a reply produced after the writer goroutine has stopped parks its
@@ -560,32 +587,6 @@ func TestEnumOrders(t *testing.T) {
 	}
 	if hx.Thorough() {
 		hx.Exhaustive("every ordered selection of 0..3 of 7 menu requests (clunk, remove, stat, full walk, failing walk, attach, late attach) parked at the cut = every held set x every release order, plus all 24 orders of one set of 4, x Maxpend {0,16} x {EOF, error} x 3 schedules")
-	}
-}
-
-func TestReplay(t *testing.T) {
-	e, err := hx.LoadReplay()
-	if e == nil {
-		t.Skip("no replay file", err)
-	}
-	replayEnv(t, e)
-}
-
-func replayEnv(t *testing.T, e *hx.Envelope) {
-	var c Case
-	if err := json.Unmarshal(e.Case, &c); err != nil {
-		t.Fatalf("bad case: %v", err)
-	}
-	if err := execute(e.Test, &c); err != nil {
-		hx.Violation(e.Test, &c, err.Error())
-		t.Fatalf("%v", err)
-	}
-}
-
-func TestRegress(t *testing.T) {
-	for _, e := range hx.Regressions() {
-		replayEnv(t, e)
-		hx.Label("regress")
 	}
 }
 
